@@ -73,6 +73,7 @@ fn main() {
         "cexec" => cexec::main_cexec(rest),
         "fexec" => fexec::main_fexec(rest),
         "texec" => texec::main_texec(rest),
+        "fpexec" => texec::main_fpexec(rest),
         "pexec" => pexec::main_pexec(rest),
         "pexec-child" => pexec::main_pexec_child(rest),
         "pexec-range" => pexec::main_pexec_range(rest),
